@@ -127,16 +127,23 @@ func closeTarget(w *World, c ssa.CallInstruction) ssa.Value {
 	return nil
 }
 
-var closesParamCache = map[*ssa.Function]int{}
+var closesParamCache = map[*ssa.Function][]int{}
 
-// closesParamIndex: the index of the parameter that fn closes on every returning path (a nil parameter
-// counts as nothing to close), or -1.
+// closesParamIndex: the index of the first parameter that fn closes on every returning path (a nil
+// parameter counts as nothing to close), or -1.
 func closesParamIndex(w *World, fn *ssa.Function) int {
+	if l := closesParamIndexes(w, fn); len(l) > 0 {
+		return l[0]
+	}
+	return -1
+}
+
+func closesParamIndexes(w *World, fn *ssa.Function) []int {
 	if v, ok := closesParamCache[fn]; ok {
 		return v
 	}
-	closesParamCache[fn] = -1 // recursion guard
-	res := -1
+	closesParamCache[fn] = nil // recursion guard
+	var res []int
 	for i, p := range fn.Params {
 		// only closer-like parameters
 		ms := types.NewMethodSet(p.Type())
@@ -179,12 +186,29 @@ func closesParamIndex(w *World, fn *ssa.Function) int {
 			okAll = false
 		})
 		if done && okAll && n > 0 {
-			res = i
-			break
+			res = append(res, i)
 		}
 	}
 	closesParamCache[fn] = res
 	return res
+}
+
+// closeTargetsAll: every value a call closes (a helper may close several of its parameters).
+func closeTargetsAll(w *World, c ssa.CallInstruction) []ssa.Value {
+	t := closeTarget(w, c)
+	if t == nil {
+		return nil
+	}
+	out := []ssa.Value{t}
+	cc := c.Common()
+	if sc := cc.StaticCallee(); sc != nil && inModule(sc) && len(sc.Blocks) > 0 && sCallee(c) != w.Func("internal/streams", "LogClose") && sCallee(c) != w.Func("internal/streams", "TryClose") {
+		for _, idx := range closesParamIndexes(w, sc) {
+			if idx < len(cc.Args) && cc.Args[idx] != t {
+				out = append(out, cc.Args[idx])
+			}
+		}
+	}
+	return out
 }
 
 type pipeInfo struct {
